@@ -12,7 +12,7 @@
    multiplication): rn with any positive weighting, uniform_discr, product
    spaces are instances (Instances.v, Lists.v). *)
 From Coq Require Import Reals List Bool.
-From Verif Require Import Base.Num Base.Vec C09.Model C09.IPS C09.Proofs C09.Instances C09.Lists C09.Pointwise C09.Matrix C09.Product C09.Moreau C09.KL.
+From Verif Require Import Base.Num Base.Vec C09.Model C09.IPS C09.Proofs C09.Instances C09.Lists C09.Pointwise C09.Matrix C09.Product C09.Moreau C09.KL C09.Radial.
 Local Open Scope R_scope.
 
 (* T1 (gradient rules, all trees).  For every expression tree, of any depth and
@@ -228,6 +228,23 @@ Theorem huber_lipschitz_on_lists : forall (n : nat) (w : Vn n), Forall (fun a =>
               <= c * norm (lspace n w) (ssub x y).
 Proof. exact sleaf_huber_lip. Qed.
 Print Assumptions huber_lipschitz_on_lists.
+
+(* Huber on power spaces (group Huber / TV-Huber): per point the gradient is the
+   radial map rho (v/gamma inside the gamma-ball, v/|v| outside) of the fibre
+   vector; rho is (1/gamma)-Lipschitz in ANY inner-product space, hence
+   grad_lipschitz = 1/gamma is a valid bound in the weighted direct sum over the
+   points (c_j = cell weights).  (Tie to HuberGradient._call's ProductSpace
+   branch: probes.) *)
+Theorem radial_map_lipschitz : forall (S : RSpace), SpaceLaws S -> forall gamma : R, 0 < gamma ->
+  forall x y, norm S (ssub (rho S gamma x) (rho S gamma y)) <= / gamma * norm S (ssub x y).
+Proof. exact rho_lipschitz. Qed.
+Theorem group_huber_gradient_lipschitz : forall (S : RSpace), SpaceLaws S ->
+  forall gamma : R, 0 < gamma -> forall (c : list R) (xs ys : list (car S)),
+  Forall (fun cj => 0 <= cj) c ->
+  gamma * gamma * wsumsq S c (vdiff S (map (rho S gamma) xs) (map (rho S gamma) ys))
+  <= wsumsq S c (vdiff S xs ys).
+Proof. exact group_huber_lipschitz. Qed.
+Print Assumptions group_huber_gradient_lipschitz.
 
 (* T2 (Kullback-Leibler family on weighted lists; prior g, `prior=None` is g = 1).
    [sleaf_sep n w phi dphi g] has value sum_i w_i phi(g_i, x_i) (= <phi(g,x), one>)
